@@ -107,6 +107,21 @@ Theorem x_block_job_arms_ok :
   x_block_job_arms = [("Ok(0)ifoff+done>=harc.metadata.len()", 0); ("Ok(0)", 1); ("Ok(copied)", 2); ("Err(e)", 1)]%string.
 Proof. reflexivity. Qed.
 
+(* every place that can PANIC in code run inside a job of the parblock pool (the job closure, the kernel-copy wrappers, the
+   user-space fall-back and its positional read/write, ChannelUpdater::send, the finalisation run by the drop of the last
+   handle): a panic there is reported by nobody (the pool replaces the thread, join() returns, the dispatcher sees Ok), so
+   the inventory is closed — exactly these three:
+   * the job's own panic!, which stands under `if let Err(e) = stat_result`: by x_block_job_arms_ok stat_result is an Err
+     only when SENDING a status update failed, i.e. when the client has dropped the receiver (xcp's main never does before
+     the driver returned);
+   * `buf[..next]` and `buf[..rlen]` of copy_range_uspace: in range by XLoops.x_range_buffer_holds_every_read and
+     XLoops.x_range_buffer_holds_every_write (the latter under read(2)'s contract).
+   A new unwrap / expect / index / panic in any of those functions re-opens this obligation. *)
+Theorem x_pool_job_panic_sites_ok :
+  x_pool_job_panic_sites = [("parblock::queue_file_range(job)", "panic! under letErr(e)=stat_result");
+                            ("common::copy_range_uspace", "buf[..next]"); ("common::copy_range_uspace", "buf[..rlen]")]%string.
+Proof. reflexivity. Qed.
+
 (* ------------------------------------------------------------------ *)
 (* bridge to the protocol model (ConcFault.v)                           *)
 (* ------------------------------------------------------------------ *)
